@@ -29,7 +29,9 @@ class CsvReader(Filter[Iterable[str], Iterable[MutableSequence]]):
 
     def filter(self, items: Iterable[str]) -> Iterable[Dense]:
 
-        lines = iter(csv.reader(iter(filter(None,(i.strip() for i in items))), **self._dialect))
+        #csv.reader wants each line to end with its newline (so that a quoted field can span several lines) and leading
+        #or trailing blanks belong to the field they are in. Blank lines are parsed as [] by csv.reader and then dropped.
+        lines = iter(filter(None,csv.reader((i.rstrip('\r\n')+'\n' for i in items), **self._dialect)))
         first = next(lines)
 
         if self._has_header:
